@@ -11,8 +11,8 @@ from vlib.vtsched import TEST_INTERNALS, Inconclusive, VTModel, clock_of, enc_ab
 PROPERTY_ID = "C28"
 LEVEL = "exploration"
 RULE = (
-    "Generated command lists (1..25 quick / 1..60 thorough commands, decoded from a generated list of small integers) executed in lock-step on the real scheduler "
-    "(VirtualTimeScheduler(0) with ms-granular float/int/timedelta/datetime arguments, TestScheduler with integer ticks "
+    "Generated command lists (1..25 commands with 3 levels of action nesting quick / 1..120 commands with 4 levels thorough, decoded from a generated list of small integers) executed in lock-step on the real scheduler "
+    "(VirtualTimeScheduler(0) with ms-granular - and, as kinds vtsus/histus, microsecond-granular - float/int/timedelta/datetime arguments, TestScheduler with integer ticks "
     "given as int/float/timedelta/datetime, HistoricalScheduler with datetime/timedelta/float arguments and an optional "
     "non-epoch initial clock) and on an explicit model (priority list ordered by (due, insertion seq) + clock). Commands: "
     "schedule / schedule_relative (incl. negative) / schedule_absolute (literal times incl. past and the TestScheduler "
@@ -34,7 +34,7 @@ ASSUMPTIONS = [
     "stop() inside an action ends the current start()/advance_*() after that action; advance_* still leaves the clock at its target",
     "the clock after start() may or may not reflect a trailing dequeued cancelled item (property silent); both accepted",
     "TestScheduler.start() schedules three no-op harness actions at 100/200/1000 - modelled as unlogged entries",
-    "time arguments are multiples of 1 ms (VirtualTimeScheduler, HistoricalScheduler) or whole ticks (TestScheduler); float rounding below 1 us is not explored",
+    "time arguments are multiples of 1 ms or of 1 us (VirtualTimeScheduler, HistoricalScheduler) or whole ticks (TestScheduler); values below the 1 us resolution of datetime/timedelta are not explored",
 ]
 
 ABS_FORMS = ("num", "int", "dt")
@@ -51,6 +51,7 @@ class _World:
         self.handles = []
         self.flags = set()
         self.depth = 0
+        self.max_depth = 0
         self.stopped_in_run = False
         self.stack = []  # ids of the actions currently running (innermost last)
         self.bodies = []  # per running action: ids of the actions it scheduled so far
@@ -60,6 +61,7 @@ class _World:
         """Executes the action's program; returns the index of the child handle the action returns (or None)."""
         self.log.append([aid, self.clock()])
         self.depth += 1
+        self.max_depth = max(self.max_depth, self.depth)
         self.stack.append(aid)
         self.bodies.append([])
         ret = None
@@ -361,6 +363,10 @@ def _run(case):
         cls.append("ran-late-at-current-clock")
     if model.m.pending():
         cls.append("left-pending")
+    if model.max_depth:
+        cls.append(f"action-nesting-levels:{model.max_depth}")
+    if kind.endswith("us"):
+        cls.append("microsecond-granular-times")
     if model.m.max_not_advancing > 100:
         cls.append("over-100-ties-in-one-start-spread-over-instants")
     if case.get("_long"):
@@ -449,14 +455,14 @@ def _dec_spec(b, depth):
     return ops
 
 
-def _decode(kind, init, data, max_cmds):
+def _decode(kind, init, data, max_cmds, depth=2):
     b = _Bytes(data)
     cmds = []
     end = b.take() % 6
     while b.more() and len(cmds) < max_cmds:
         c = b.take() % 16
         if c < 8:
-            cmds.append(_dec_sched(b, 2))
+            cmds.append(_dec_sched(b, depth))
         elif c == 8:
             cmds.append(["cancel", b.take() % 31])
         elif c in (9, 10):
@@ -477,19 +483,19 @@ def _decode(kind, init, data, max_cmds):
         cmds += [["advance_by", 1 + b.take() % 20, b.take(REL_FORMS)], ["start"]]
     if not cmds:
         cmds = [["start"]]
-    return {"kind": kind, "init": init if kind == "hist" else 0, "cmds": cmds}
+    return {"kind": kind, "init": init if kind in ("hist", "histus") else 0, "cmds": cmds}
 
 
-def _cases(max_cmds):
+def _cases(max_cmds, depth=2):
     return st.tuples(
-        st.sampled_from(["vts", "test", "hist"]),
+        st.sampled_from(["vts", "test", "hist", "vtsus", "histus"]),
         st.sampled_from([0, 0, 5, 86_400_000]),
         st.one_of(
             st.lists(st.integers(0, 255), min_size=2, max_size=40),
             st.lists(st.integers(0, 255), min_size=40, max_size=8 * max_cmds),
             st.lists(st.integers(0, 255), min_size=4 * max_cmds, max_size=8 * max_cmds),
         ),
-    ).map(lambda t: _decode(t[0], t[1], t[2], max_cmds))
+    ).map(lambda t: _decode(t[0], t[1], t[2], max_cmds, depth))
 
 
 def _long_cases():
@@ -514,7 +520,7 @@ def checks(tier):
         Check(
             "history",
             _run,
-            strategy=_cases(25 if tier == "quick" else 60),
+            strategy=_cases(25, 2) if tier == "quick" else _cases(120, 3),
             examples={"quick": 6000, "thorough": 16 * 12000},
             shards={"quick": 6, "thorough": 16},
         ),
